@@ -142,14 +142,14 @@ def norm_kind(fn, bb, t):
     return None
 
 
-_GUARDED = {}
 
 
 def guarded_subtractions(F, fn):
     """Blocks of `a - b` overflow assertions that every path reaches only after having established a >= b by a comparison
     of the same two values (`if end <= start { 0 } else { end - start }`): discharged, they cannot fire."""
-    if fn.key in _GUARDED:
-        return _GUARDED[fn.key]
+    cache = F.__dict__.setdefault("_guarded_subtractions", {})   # per fact base: the same function key names different bodies in different trees
+    if fn.key in cache:
+        return cache[fn.key]
     res = set()
     has = False
     for bb in fn.reachable():
@@ -174,7 +174,7 @@ def guarded_subtractions(F, fn):
                 res = {bb for bb, v in seen.items() if v and all(v)}
         except Exception:
             res = set()
-    _GUARDED[fn.key] = res
+    cache[fn.key] = res
     return res
 
 
